@@ -61,6 +61,9 @@ PROPS = {
                 quick=['std-lax', 'nostd-lax'], thorough=list(CONFIGS)),
     'C12': dict(workload='C12', oracle=['C12'], project=proj_identity,
                 quick=['std-lax', 'nostd-lax'], thorough=['std-lax', 'nostd-lax']),
+    'C13': dict(workloads=['C02', 'C04', 'C11', 'C12', 'C14', 'IO'], oracle=['C13'], project=proj_identity,
+                cross=[('std-lax', 'nostd-lax'), ('std-strict', 'nostd-strict')],
+                quick=['std-lax', 'nostd-lax'], thorough=list(CONFIGS)),
     'C14': dict(workload='C14', oracle=['C14'], project=proj_identity,
                 quick=['std-lax', 'std-strict'], thorough=list(CONFIGS)),
     'C17': dict(workload='C17', oracle=['C17'], project=proj_identity,
@@ -310,12 +313,17 @@ def run_check(pid, tier, only_cfgs=None, quiet=False):
     violations = []      # (cfg, case, detail, kind)
     knowns = {}
     build_errors = []
+    transcripts = {}
+    runs = []
     for cfg in cfgs:
         rc, out, binpath = builds[cfg]
         if rc != 0:
             build_errors.append((cfg, out[-3000:]))
             continue
-        r = run_workload(pid, cfg, binpath, spec['workload'], seed, tier)
+        for wl in spec.get('workloads', [spec.get('workload')]):
+            runs.append((cfg, binpath, wl))
+    for cfg, binpath, wl in runs:
+        r = run_workload(pid, cfg, binpath, wl, seed, tier, tag='-' + wl)
         if 'error' in r:
             build_errors.append((cfg, r['error']))
             continue
@@ -328,7 +336,10 @@ def run_check(pid, tier, only_cfgs=None, quiet=False):
             continue
         m = re.search(r'oracle_checks=(\d+)', r['harness_log'])
         stats['oracle_checks'] += int(m.group(1)) if m else 0
-        stats['per_cfg'][cfg] = dict(cases=len(cases))
+        pc = stats['per_cfg'].setdefault(cfg, dict(cases=0, disagreements=0, oracle_failures=0))
+        pc['cases'] += len(cases)
+        if spec.get('cross'):
+            transcripts[(cfg, wl)] = dict(zip(cases, impl))
         proj = spec['project']
         ndis = 0
         for c, a, b in zip(cases, impl, model):
@@ -357,7 +368,7 @@ def run_check(pid, tier, only_cfgs=None, quiet=False):
                 else:
                     violations.append((cfg, c, detail, 'correspondence-broken'))
         stats['disagreements'] += ndis
-        stats['per_cfg'][cfg]['disagreements'] = ndis
+        pc['disagreements'] += ndis
         nor = 0
         for line in read_lines(os.path.join(od, 'oracle.txt')):
             parts = line.split('\t')
@@ -370,7 +381,58 @@ def run_check(pid, tier, only_cfgs=None, quiet=False):
             else:
                 violations.append((cfg, parts[1], parts[2], 'impl-violates-property'))
         stats['oracle_failures'] += nor
-        stats['per_cfg'][cfg]['oracle_failures'] = nor
+        pc['oracle_failures'] += nor
+    # ---- cross-configuration comparison (C13): the same case under std and under no_std
+    if spec.get('cross'):
+        ncross = 0
+        for (a, b) in spec['cross']:
+            if a not in cfgs or b not in cfgs:
+                continue
+            for wl in spec.get('workloads', []):
+                ta, tb = transcripts.get((a, wl)), transcripts.get((b, wl))
+                if ta is None or tb is None:
+                    continue
+                for c, oa in ta.items():
+                    cb = c.replace(' std ', ' nostd ', 1) if wl == 'IO' else c
+                    ob = tb.get(cb)
+                    if ob is None:
+                        continue
+                    ncross += 1
+                    if oa != ob:
+                        detail = '%s: %s | %s: %s' % (a, oa[:300], b, ob[:300])
+                        k = known_match(known, pid, a + '/' + b, c, detail)
+                        if k:
+                            knowns.setdefault(k['id'], [k, 0])[1] += 1
+                        else:
+                            violations.append((a + ' vs ' + b, c, detail, 'impl-violates-property'))
+                            stats['oracle_failures'] += 1
+        stats['cross_compared'] = ncross
+        stats['oracle_checks'] += ncross
+        # raw message texts (not classes) of both builds on the malformed-input workload
+        for (a, b) in spec['cross']:
+            if a not in cfgs or b not in cfgs or builds[a][0] != 0 or builds[b][0] != 0:
+                continue
+            raw = {}
+            for cfg in (a, b):
+                r = run_workload(pid, cfg, builds[cfg][2], 'C04', seed, tier, extra_env={'HARNESS_RAW_MSG': '1'}, tag='-raw')
+                if 'error' in r:
+                    build_errors.append((cfg, r['error']))
+                    continue
+                raw[cfg] = dict(zip(read_lines(os.path.join(r['outdir'], 'cases.txt')),
+                                    read_lines(os.path.join(r['outdir'], 'impl.txt'))))
+            if len(raw) == 2:
+                nraw = 0
+                for c, oa in raw[a].items():
+                    ob = raw[b].get(c)
+                    if ob is None:
+                        continue
+                    nraw += 1
+                    if oa != ob:
+                        violations.append((a + ' vs ' + b, c, 'message text differs: %s | %s' % (oa[:300], ob[:300]),
+                                           'impl-violates-property'))
+                        stats['oracle_failures'] += 1
+                stats['raw_message_cases_compared'] = stats.get('raw_message_cases_compared', 0) + nraw
+                stats['oracle_checks'] += nraw
     # ---- verdict
     exit_code = 0
     for kid, (k, n) in sorted(knowns.items()):
@@ -422,7 +484,7 @@ def run_check(pid, tier, only_cfgs=None, quiet=False):
             if corr:
                 cfg, case, detail, kind = corr[0]
                 payload.update(kind='correspondence-broken', cfg=cfg, case_line=case, observed=detail,
-                               correspondence='model (lean/BorshModel) vs /repo on workload %s' % spec['workload'],
+                               correspondence='model (lean/BorshModel) vs /repo on workload %s' % (spec.get('workload') or spec.get('workloads')),
                                disagreeing_cases=len(corr),
                                note='the property itself was not seen to fail on any explored input; '
                                     'the model the theorems are about no longer describes the code')
@@ -448,7 +510,7 @@ def targeted_search(pid, spec, cfgs, builds, seed, known):
             rc, out, binpath = builds[cfg]
             if rc != 0:
                 continue
-            r = run_workload(pid, cfg, binpath, spec['workload'], s, 'thorough', tag='-search')
+            r = run_workload(pid, cfg, binpath, spec.get('workload') or spec['workloads'][0], s, 'thorough', tag='-search')
             if 'error' in r:
                 continue
             best = None
@@ -515,13 +577,14 @@ def replay(pid, path):
         print('replay file names no concrete case: ' + json.dumps(rp)[:500])
         return 1
     spec = PROPS[pid]
-    rc, out, binpath = build_harness(cfg)
+    rc, out, binpath = build_harness(cfg.split(' ')[0])
     if rc != 0:
         print(out[-2000:])
         return 1
     with Lock('lean'):
         run(['lake', 'build', 'driver'], cwd=LEAN)
-    r = run_workload(pid, cfg, binpath, spec['workload'], rp.get('seed', 1), rp.get('tier', 'quick'), tag='-replay')
+    wl = rp.get('workload') or spec.get('workload') or spec['workloads'][0]
+    r = run_workload(pid, cfg.split(' ')[0], binpath, wl, rp.get('seed', 1), rp.get('tier', 'quick'), tag='-replay')
     if 'error' in r:
         print(r['error'])
         return 1
